@@ -23,7 +23,7 @@ PROP = {
                     "after a barrier HTTP round trip on the same connection plus 30 ms nothing older is still in flight (silence check; expiry = pass)",
                     "streams/datagrams sent before or concurrently with the accept may legitimately be served after it (only the log order is asserted for them)"],
     "tests": [
-        {"name": "TestVerifC01_AuthGate", "unit": U, "quick": 150, "thorough": 400, "shards": 1, "shards_thorough": 16,
+        {"name": "TestVerifC01_AuthGate", "unit": U, "quick": 150, "thorough": 2500, "shards": 1, "shards_thorough": 16,
          "timeout_quick": 600, "timeout_thorough": 3600, "shrinktime": "40s"},
     ],
 }
